@@ -20,7 +20,7 @@ from vf.props.c02 import Bad
 PROPERTY = "C10"
 LEVEL = "model_checking"
 ASSUMPTIONS = ["DC1: integral JSON floats for Int / ID may be accepted or rejected", "DC10: String result for values other than strings, booleans and numbers is any str"]
-BUDGET_S = {"quick": 60, "thorough": 600}
+BUDGET_S = {"quick": 600, "thorough": 600}
 
 SCALARS = ["Int", "Float", "String", "Boolean", "ID", "Date", "Time", "DateTime"]
 INT_MIN, INT_MAX = -(2 ** 31), 2 ** 31 - 1
